@@ -41,5 +41,36 @@ Definition c05_state (s : ostate) : list N :=
   (if forallb (ugm_leaf_ok s) (user_entries s) && forallb (app_tracked s) (s_apps s) then [] else [501]) ++
   (if forallb (ugm_parent_ok s) (user_entries s) then [] else [502]).
 
+(* enforcement (kind 503): a scheduling decision for application a never takes the tracked usage of a's user, or of a
+   group tracker that lists a, above a configured maximum on a queue of a's path, on a type that maximum defines.
+   Judged on the step: the entry is above its maximum after the step on a type where the step increased its usage. *)
+Definition entry_of (s : ostate) (e : ougm) : option ougm :=
+  find (fun x => (u_who x =? u_who e) && Bool.eqb (u_group x) (u_group e) && (u_path x =? u_path e)) (s_ugm s).
+
+Definition entry_over (pre : ostate) (e : ougm) : bool :=
+  match u_max e with
+  | None => false
+  | Some m =>
+      existsb (fun kv =>
+                 (snd kv <? getz (u_usage e) (fst kv))%Z &&
+                 (match entry_of pre e with
+                  | Some e0 => (getz (u_usage e0) (fst kv) <? getz (u_usage e) (fst kv))%Z
+                  | None => true end)) m
+  end.
+
+Definition concerns (s : ostate) (a : oapp) (e : ougm) : bool :=
+  (if u_group e then memN (ap_id a) (u_running e) else u_who e =? ap_user a) &&
+  existsb (fun q => q_id q =? u_path e) (ancestors s (ap_queue a)).
+
+Definition sched_apps (st : ostep) : list N :=
+  flat_map (fun e => match e with ENewAlloc _ a _ _ _ => [a] | _ => [] end) (st_events st).
+
+Definition c05_enforce_step (pre : ostate) (st : ostep) : list N :=
+  if negb (is_sched (st_op st)) then [] else
+  if existsb (fun aid => match find_app (st_obs st) aid with
+                         | Some a => existsb (fun e => concerns (st_obs st) a e && entry_over pre e) (s_ugm (st_obs st))
+                         | None => false end) (sched_apps st)
+  then [503] else [].
+
 Definition c05_core_check_all (cs : list ohistory) : list (N * N) :=
-  all_check (fun h => first_of_kind [] (hist_check_poison 500 (fun _ _ st => c05_state (st_obs st)) h)) 0 cs.
+  all_check (fun h => first_of_kind [] (hist_check_poison 500 (fun _ pre st => c05_state (st_obs st) ++ c05_enforce_step pre st) h)) 0 cs.
